@@ -68,6 +68,8 @@ def canonical_case(d: Any) -> Optional[tuple[str, str, str]]:
             return key, "undefined", ""  # astronomically large / small: a 15-digit float in an
             # exponent makes the comparison meaningless
         if not matches(got, want, tol):
+            if not printspace.float_conditioned(e, rep, want, tol):
+                return key, "undefined", ""
             return key, "read", (f"{tex!r} reads as {[mpmath.nstr(g, 12) for g in got[:3]]} but the "
                 f"expression {short(e, 80)} is {mpmath.nstr(want, 12)} at {pt}")
     return key, "read", ""
